@@ -48,13 +48,18 @@ int main(int argc, char** argv) {
             Sweepers S;
             std::unique_ptr<SmootherGive> sg; std::unique_ptr<SmootherTake> st;
             std::unique_ptr<ExtrapolatedSmootherGive> eg; std::unique_ptr<ExtrapolatedSmootherTake> et;
+            // the give smoothers accept every cache-flag combination (take needs both caches): the give operators get their own LevelCache
+            // with flags cycling through (1,1) (0,1) (1,0) (0,0); the coefficients are the same functions either way
+            const bool gcc = (c % 4 == 0) || (c % 4 == 2), gcg = (c % 4 == 0) || (c % 4 == 1);
+            LevelCache lc_give(g, *pb.coef, *pb.geom, gcc, gcg);
+            std::printf("# give operators: cache_coef=%d cache_geom=%d\n", gcc, gcg);
             if (!ext) {
-                sg = std::make_unique<SmootherGive>(g, lc, *pb.geom, *pb.coef, dirbc, threads);
+                sg = std::make_unique<SmootherGive>(g, lc_give, *pb.geom, *pb.coef, dirbc, threads);
                 st = std::make_unique<SmootherTake>(g, lc, *pb.geom, *pb.coef, dirbc, threads);
                 S.give = [&](Vector<double>& x, const Vector<double>& f) { Vector<double> t(n); for (int i = 0; i < n; i++) t[i] = 4242.5; sg->smoothing(x, f, t); };
                 S.take = [&](Vector<double>& x, const Vector<double>& f) { Vector<double> t(n); for (int i = 0; i < n; i++) t[i] = -4242.5; st->smoothing(x, f, t); };
             } else {
-                eg = std::make_unique<ExtrapolatedSmootherGive>(g, lc, *pb.geom, *pb.coef, dirbc, threads);
+                eg = std::make_unique<ExtrapolatedSmootherGive>(g, lc_give, *pb.geom, *pb.coef, dirbc, threads);
                 et = std::make_unique<ExtrapolatedSmootherTake>(g, lc, *pb.geom, *pb.coef, dirbc, threads);
                 S.give = [&](Vector<double>& x, const Vector<double>& f) { Vector<double> t(n); for (int i = 0; i < n; i++) t[i] = 4242.5; eg->extrapolatedSmoothing(x, f, t); };
                 S.take = [&](Vector<double>& x, const Vector<double>& f) { Vector<double> t(n); for (int i = 0; i < n; i++) t[i] = -4242.5; et->extrapolatedSmoothing(x, f, t); };
